@@ -51,6 +51,15 @@ def run(res, tier):
             raise tbf.AnalysisBroken("%s: no copy statement recognised in its leaf visitor" % q)
         n += max(k, 1 if stale else 0)
     res.floor("C17.index-domain", n, 2, "copy statements")
+    # the rows the exports' leaf visitors are handed are the rows the kernels wrote (rule of C06.10 on the particle container's accessors)
+    import c06
+    res.rule("C17.rows-read: the row pointers applyToAllLeaves / getParticleData / getParticleRhs hand out are the viewer's own address of an item of that row (or row 0 + r x the SAME viewer's row length) moved along the row only - what the export reads under (value v, position p) is what getItem(p, v) holds")
+    sub = tbf.Result("C06")
+    nrows = c06.row_addressing(facts, sub)
+    for i in sub.instances:
+        res.instance("C17.rows-read", i["key"], i["at"], i["detail"])
+    for v in sub.violations:
+        res.violation("C17.rows-read", v["file"], v["function"], v["key"], v["line"], v["msg"] + " - getAllParticlesData / getAllParticlesRhs and rebuild() read the leaves through these pointers")
     # the target/source tree only forwards
     for q, want in (("TbfTreeTsm::getAllParticlesDataSource", "treeSource.getAllParticlesData"), ("TbfTreeTsm::getAllParticlesDataTarget", "treeTarget.getAllParticlesData"),
                     ("TbfTreeTsm::getAllParticlesRhsTarget", "treeTarget.getAllParticlesRhs")):
